@@ -335,9 +335,24 @@ class CallbackCycleScn:
                     if x == "END":
                         ends.append(cyc)
                         ev.set()
-                    elif P["end"] == "cb-raises":
+                    elif P["end"] in ("cb-raises", "cb-raises-peer-keeps"):
                         raise ValueError("callback failure")
 
+                if P["end"] == "cb-raises-peer-keeps":
+                    # the peer never closes its end and goes on sending: the failed callback conversation
+                    # must still be over on this side (endmarker once, nothing after it, entry forgotten)
+                    ctl = gw.remote_exec("c = channel.receive()\nc.send(1)\nc.send(2)\nchannel.gateway._vp_keep = getattr(channel.gateway, '_vp_keep', []) + [c]\nchannel.send('sent')")
+                    ch = gw.newchannel()
+                    ch.setcallback(cb, endmarker="END")
+                    ctl.send(ch)
+                    del ch
+                    ctl.receive(timeout=10)
+                    if not ev.wait(20):
+                        w.observe("no-endmarker", cyc, list(got))
+                    em.sleep(0.5)
+                    if got != [1, "END"]:
+                        w.observe("calls-after-failure", cyc, list(got))
+                    continue
                 if P["end"] == "remote-close":
                     ch = gw.remote_exec("channel.send(1)")
                 elif P["end"] == "cb-raises":
@@ -370,6 +385,9 @@ class CallbackCycleScn:
         for e in obs:
             if e[0] == "no-endmarker":
                 return ("c18:dropped-callback-channel-never-ended", f"P={P}: conversation {e[1]} ended but the endmarker never arrived (callback saw {e[2]})"), outcome
+        for e in obs:
+            if e[0] == "calls-after-failure":
+                return ("c18:failed-callback-conversation-not-over", f"P={P}: the callback failed on the first item; it was called with {e[2]} (expected the item, then the endmarker, nothing else)"), outcome
         base, after = sz
         if after[0] > base[0] or after[1] > base[1]:
             return ("c18:growth", f"P={P}: channel tables grew from {base} to {after} after {P['m']} finished callback conversations"), outcome
@@ -544,7 +562,7 @@ def run(tier: str, only=None) -> int:
         if only and only not in name:
             continue
         harness.run_exploration(rep, PID, name, CycleDropScn, {"who": "init", "gc_anywhere": True, "callback": cb}, {"ps": 0, "env": 1, "free": 0} if tier == "quick" else {"ps": 1, "env": 1, "free": 0}, max_execs=cap)
-    for end in ("remote-close", "remote-error", "cb-raises"):
+    for end in ("remote-close", "remote-error", "cb-raises", "cb-raises-peer-keeps"):
         name = f"cbcycle/{end}"
         if only and only not in name:
             continue
